@@ -148,7 +148,14 @@ fn main() {
                 "C13" => Some(c13::search_c13(&mut rng, thorough)),
                 "C01" => Some(cellsearch::search_c01(&mut rng, thorough)),
                 "C06" => Some(cellsearch::search_c06(&mut rng, thorough)),
+                "C02" => Some(cellsearch::search_c02(&mut rng, thorough)),
+                "C03" => Some(cellsearch::search_c03(&mut rng, thorough)),
+                "C11" => Some(cellsearch::search_c11(&mut rng, thorough)),
                 "C17" => Some(geosearch::search_c17(&mut rng, thorough)),
+                "C15" => Some(geosearch::search_c15(&mut rng, thorough)),
+                "C16" => Some(geosearch::search_c16(&mut rng, thorough)),
+                "C04" => Some(geosearch::search_c04(&mut rng, thorough)),
+                "C12" => Some(geosearch::search_c12(&mut rng, thorough)),
                 "C18" => Some(geosearch::search_c18(&mut rng, thorough)),
                 "C19" => Some(geosearch::search_c19(&mut rng, thorough)),
                 _ => search::run(prop, &mut rng, thorough),
